@@ -55,7 +55,7 @@ class TempFile:
         if pid not in _stable:
             import atexit
             _stable.clear()
-            _stable[pid] = tempfile.mkdtemp(prefix='pelverif', dir=_SHM)
+            _stable[pid] = tempfile.mkdtemp(prefix='pelverif_%s_' % os.environ.get('PELVERIF_RUN_TAG', 'x'), dir=_SHM)
             atexit.register(_cleanup_stable)
         self.path = os.path.join(_stable[pid], 'generated' + (self.suffix or '.txt'))
         with open(self.path, 'w', encoding='utf-8', newline='') as f:
